@@ -21,7 +21,7 @@ import re
 
 from absint import table, Sym, Agg, Const, consistent_order
 from core import Unrecognised
-from facts import Place, op_place
+from facts import Place, op_place, callee_is
 from mir import (sem_calls, calls_to, branches_on, deep_locals, callers_of, field_writers, constructors_of,
                  origins, fname, trace_back)
 
@@ -98,17 +98,63 @@ def operand_locals(rv):
     return out
 
 
+_SUMMARY = {}
+
+
+def verifier_summary(prog, name, depth=0):
+    """index of the parameter that workspace function `name` verifies: every Ok(..) it returns lies behind the Ok
+    edge of a verification (direct, or of another summarised helper) of a value derived from that parameter.
+    None if it is no such helper.  (Helper extraction of `bundle.verify()?` must not look like a dropped check.)"""
+    if name in _SUMMARY:
+        return _SUMMARY[name]
+    _SUMMARY[name] = None
+    bs = prog.bodies_at(name)
+    if len(bs) != 1 or depth > 2 or not name.startswith(("p2panda", "<p2panda")):
+        return None
+    b = bs[0]
+    if b.kind in ("coroutine", "closure"):
+        return None
+    for v, idx in verification_calls(prog, b, depth + 1):
+        params = {p for p, _f in deep_locals(b, v.args[idx])[1]}
+        edges = ok_edges(b, v)
+        if not params or not edges:
+            continue
+        oks = [bb for bb, k, pl, rv, st in b.assigns() if pl.local == 0 and not pl.proj and rv["k"] == "agg"
+               and rv.get("variant") == "Ok"]
+        if oks and all(any(bb not in b.reachable(0, avoid_edges={e}) for e in edges) for bb in oks) and \
+                not any(Place(t["dest"]).local == 0 and not callee_is(t["func"], "core::ops::try_trait::FromResidual::from_residual")
+                        for _bb, t in b.calls()):
+            _SUMMARY[name] = sorted(params)[0] - 1
+            return _SUMMARY[name]
+    return None
+
+
+def verification_calls(prog, body, depth=0):
+    """[(call, index of the verified argument)]: KeyBundle::verify / Lifetime::verify / verify_lifetime and
+    workspace helpers summarised as verifiers"""
+    out = []
+    for c in sem_calls(body):
+        if c.is_(*CHECKS):
+            out.append((c, 0))
+        elif c.name.startswith(("p2panda", "<p2panda")) and c.args and depth <= 2:
+            k = verifier_summary(prog, c.name, depth)
+            if k is not None and k < len(c.args):
+                out.append((c, k))
+    return out
+
+
 CLEAN, VERIFIED, UNVERIFIED = 0, 1, 2
 
 
-def returned_state(body, producers, entry_unverified=()):
+def returned_state(prog, body, producers, entry_unverified=()):
     """Forward may-dataflow.  producers: SemCalls whose result is an element read from stored state.
     Returns (state of _0 at return blocks, description of the verification edges found)."""
     prod_bbs = {p.bb for p in producers}
-    checks = [c for c in sem_calls(body) if c.is_(*CHECKS)]
+    vcalls = verification_calls(prog, body)
+    checks = [c for c, _ in vcalls]
     edge_groups = {}
-    for v in checks:
-        grp, params = deep_locals(body, v.args[0])
+    for v, vi in vcalls:
+        grp, params = deep_locals(body, v.args[vi])
         grp = set(grp) | {l for l, _ in params}
         for e in ok_edges(body, v):
             edge_groups.setdefault(e, set()).update(grp)
@@ -200,7 +246,7 @@ def element_producers(body):
 def rule_accept(ctx):
     for kind, field in (("longterm", "longterm_bundles"), ("onetime", "onetime_bundles")):
         b = ctx.body(KR + "KeyRegistry::add_%s_bundle" % kind)
-        vs = [c for c in calls_to(b, VERIFY) if any(p == (3, None) for p in deep_locals(b, c.args[0])[1])]
+        vs = [c for c, vi in verification_calls(ctx.prog, b) if any(p == (3, None) for p in deep_locals(b, c.args[vi])[1])]
         if not ctx.ob("C38.1", "%s: verify() of the added bundle" % kind, bool(vs),
                       "add_%s_bundle does not call KeyBundle::verify on its `key_bundle` argument" % kind, site=b.loc(),
                       key="C38.1:%s:verify-call" % kind):
@@ -372,7 +418,7 @@ def rule_return(ctx):
         trusted = [p for p in prods if p.is_(LATEST)]
         prods = [p for p in prods if not p.is_(LATEST)]
         n_prod += len(prods) + len(trusted)
-        ret, ret_blocks, edges, checks = returned_state(b, prods)
+        ret, ret_blocks, edges, checks = returned_state(ctx.prog, b, prods)
         ctx.ob("C38.5", "%s: no stored bundle is handed out unverified" % name, ret != UNVERIFIED,
                "%s: a bundle read from the registry by %s can reach the return value without passing the Ok edge of a "
                "lifetime / bundle verification of that same bundle (verification edges found: %s): a bundle that expired "
